@@ -341,3 +341,109 @@ def _parse_zone(with_content: bool):
 
 PARSE_ZONE = _parse_zone(True)
 PARSE_ZONE_NO_CONTENT = _parse_zone(False)
+
+
+# ---- emitter: zone as assignment value -----------------------------------------------------------------------------
+
+EMITTER = "octave_mcp.core.emitter"
+AST = "octave_mcp.core.ast_nodes"
+
+
+def _zone_param():
+    return VF.Obj("LiteralZoneValue", AST, content=VF.Str(), info_tag=VF.AnyVal(), fence_marker=VF.Str())
+
+
+def _build_assignment(key, value, leading_comments):
+    from octave_mcp.core.ast_nodes import Assignment
+
+    a = Assignment(key=key, value=value)
+    a.leading_comments = list(leading_comments)
+    return a
+
+
+def _tagtext(z):
+    t = S.attr(z, "info_tag")
+    if S.symbolic(t):
+        return z3.If(S.And(S.is_str(t), S.Not(S.str_eq(S.str_val(t), ""))), S.str_val(t), z3.StringVal(""))
+    return t if t else ""
+
+
+def _emit_assignment_zone(indent: int):
+    ind = "  " * indent
+
+    def expected(a):
+        z = S.attr(a.assignment, "value")
+        c = S.attr(z, "content")
+        mk = S.attr(z, "fence_marker")
+        key = S.attr(a.assignment, "key")
+        if S.symbolic(c, mk, key, _tagtext(z)):
+            body = z3.If(c == z3.StringVal(""), z3.StringVal(""), z3.Concat(c, z3.StringVal("\n")))
+            return z3.Concat(z3.StringVal(ind), key, z3.StringVal("::\n" + ind), mk, _tagtext(z), z3.StringVal("\n"), body, z3.StringVal(ind), mk)
+        return f"{ind}{key}::\n{ind}{mk}{_tagtext(z)}\n" + (c + "\n" if c else "") + f"{ind}{mk}"
+
+    return VF.FunctionContract(
+        EMITTER,
+        "emit_assignment",
+        label=f"#zone.indent{indent}",
+        params={
+            "assignment": VF.Obj("Assignment", AST, build=_build_assignment, key=VF.Str(), value=_zone_param(), leading_comments=VF.FixedList()),
+            "indent": VF.Const(indent),
+            "format_options": VF.Const(None),
+        },
+        pre=lambda a: S.Or(S.is_none(S.attr(S.attr(a.assignment, "value"), "info_tag")), S.is_str(S.attr(S.attr(a.assignment, "value"), "info_tag"))),
+        posts={
+            # THE property clause: key line, fence at node indent, content bytes untouched and un-indented, closing fence at node indent
+            "zone-text-exact": lambda a, r: S.str_eq(r, expected(a)),
+        },
+        raises=(),
+    )
+
+
+EMIT_ASSIGNMENT_ZONE = [_emit_assignment_zone(i) for i in (0, 1, 3)]
+
+
+def _build_block(key, children, leading_comments, target):
+    from octave_mcp.core.ast_nodes import Block
+
+    b = Block(key=key, children=list(children))
+    b.leading_comments = list(leading_comments)
+    b.target = target
+    return b
+
+
+def _build_bare(key, value, leading_comments):
+    return _build_assignment(key, value, leading_comments)
+
+
+def _emit_block_bare_zone(indent: int):
+    ind = "  " * indent
+    cind = "  " * (indent + 1)
+
+    def expected(a):
+        ch = S.items(S.attr(a.block, "children"))[0]
+        z = S.attr(ch, "value")
+        c, mk, key = S.attr(z, "content"), S.attr(z, "fence_marker"), S.attr(a.block, "key")
+        if S.symbolic(c, mk, key, _tagtext(z)):
+            body = z3.If(c == z3.StringVal(""), z3.StringVal(""), z3.Concat(c, z3.StringVal("\n")))
+            return z3.Concat(z3.StringVal(ind), key, z3.StringVal(":\n" + cind), mk, _tagtext(z), z3.StringVal("\n"), body, z3.StringVal(cind), mk)
+        return f"{ind}{key}:\n{cind}{mk}{_tagtext(z)}\n" + (c + "\n" if c else "") + f"{cind}{mk}"
+
+    return VF.FunctionContract(
+        EMITTER,
+        "emit_block",
+        label=f"#bare-zone.indent{indent}",
+        params={
+            "block": VF.Obj(
+                "Block", AST, build=_build_block, key=VF.Str(), leading_comments=VF.FixedList(), target=VF.Const(None),
+                children=VF.FixedList(VF.Obj("Assignment", AST, build=_build_bare, key=VF.Const(""), value=_zone_param(), leading_comments=VF.FixedList())),
+            ),
+            "indent": VF.Const(indent),
+            "format_options": VF.Const(None),
+        },
+        pre=lambda a: S.Or(S.is_none(S.attr(S.attr(S.items(S.attr(a.block, "children"))[0], "value"), "info_tag")), S.is_str(S.attr(S.attr(S.items(S.attr(a.block, "children"))[0], "value"), "info_tag"))),
+        posts={"bare-zone-text-exact": lambda a, r: S.str_eq(r, expected(a))},
+        raises=(),
+    )
+
+
+EMIT_BLOCK_BARE_ZONE = [_emit_block_bare_zone(i) for i in (0, 2)]
